@@ -284,6 +284,17 @@ def enumerate_paths(stmts, cap=5000):
                         facts[nm] = c
                     elif isinstance(s.value, ast.Name) and s.value.id in facts:
                         facts[nm] = facts[s.value.id]
+            elif isinstance(s, ast.Assign) and len(s.targets) == 1 and isinstance(s.targets[0], (ast.Tuple, ast.List)) and isinstance(s.value, (ast.Tuple, ast.List)) \
+                    and len(s.targets[0].elts) == len(s.value.elts) and all(isinstance(t_, ast.Name) for t_ in s.targets[0].elts):
+                # a, b = e1, e2: simultaneous assignment - both right-hand sides are taken in the environment before the statement
+                vals = [resolve(v_, env) for v_ in s.value.elts]
+                env = dict(env)
+                for t_, val in zip(s.targets[0].elts, vals):
+                    if any(isinstance(x, ast.Name) and x.id == t_.id for x in ast.walk(val)):
+                        env.pop(t_.id, None)
+                    else:
+                        env[t_.id] = val
+                    facts = dict((k2, v2) for k2, v2 in facts.items() if k2 != t_.id)
             elif isinstance(s, ast.Assign):
                 # tuple unpacking and the like: the names become opaque again
                 env = dict(env)
